@@ -161,7 +161,7 @@ func checkC12(c *Ctx) {
 			RequireFacts(c, p, "C12.guard", fn, AcceptTrueBool, nil, []Req{
 				{"signature-parsed", `^noerr Signature\.SetBytes\(local:Signature,p0\)$`},
 				{"public-key-not-infinity", `^not G1Affine\.IsInfinity\(pr\.A\)$`},
-				{"x-mod-n-equals-r", `^0 == Int\.Cmp\(local:Int<-Mod\(local:Int,g:order\),local:Int<-SetBytes\(local:Signature\.R`},
+				{"x-mod-n-equals-r", `^0 == Int\.Cmp\(local:Int<-Mod\(local:Int,(?:g:order|Modulus\(\))\),local:Int<-SetBytes\(local:Signature\.R`},
 			})
 		}
 		if fn := p.Func(pk, "", "HashToInt"); fn != nil {
